@@ -53,6 +53,22 @@ decode_huffman_code_block_stateless(struct inflate_state *s, uint8_t *start_out)
 }
 #endif
 
+/* -DIC_LOOP_MEMCPY (CBMC only): memcpy as a plain byte loop (unwind bound memcpy.0 set by the plan).
+ * CBMC's built-in memcpy model with a symbolic length/offset into the output arena costs 10x the
+ * formula (measured on the fixed-Huffman unit, N=1: 11.1 M variables / 186 s vs 1.2 M / 27 s). Bounds of
+ * every byte access are still checked by CBMC's pointer checks inside the loop. */
+#if defined(IC_LOOP_MEMCPY) && !defined(REPLAY)
+void *
+memcpy(void *dst, const void *src, size_t n)
+{
+        unsigned char *d = dst;
+        const unsigned char *s = src;
+        for (size_t i = 0; i < n; i++)
+                d[i] = s[i];
+        return dst;
+}
+#endif
+
 /* bit position (in the caller's input) of the next unread bit */
 static inline size_t
 ic_bitpos(const struct inflate_state *s, const uint8_t *in_start)
